@@ -371,26 +371,26 @@ def solve(ob, timeout_ms):
     g = z3.simplify(ob.goal)
     if z3.is_true(g):
         return "unsat", 0.0, None, "trivial"
-    # strategy 1: E-matching only (no model-based quantifier instantiation): fast and stable for valid VCs
-    s = z3.Solver()
-    s.set("timeout", max(1000, timeout_ms // 3))
-    s.set("auto_config", False)
-    s.set("smt.mbqi", False)
     from .calls import SPEC_AXIOMS, OPAQUE_AXIOMS
     axioms = list(SPEC_AXIOMS.values()) + [OPAQUE_AXIOMS[n] for n in getattr(ob, "reveal", ()) if n in OPAQUE_AXIOMS]
-    s.add(*axioms)
-    s.add(*ob.assumptions)
-    s.add(z3.Not(ob.goal))
-    r = s.check()
+
+    def attempt(ematch_only, tmo):
+        s = z3.Solver()
+        s.set("timeout", int(tmo))
+        if ematch_only:
+            s.set("auto_config", False)
+            s.set("smt.mbqi", False)
+        s.add(*axioms)
+        s.add(*ob.assumptions)
+        s.add(z3.Not(ob.goal))
+        return s, s.check()
+
+    # stage 1: E-matching only, short budget (fast and stable for most valid VCs)
+    s, r = attempt(True, min(2000, timeout_ms))
     if r == z3.unsat:
         return "unsat", time.time() - t0, None, "z3-ematch"
-    # strategy 2: default configuration (MBQI on): can also produce models
-    s = z3.Solver()
-    s.set("timeout", timeout_ms)
-    s.add(*axioms)
-    s.add(*ob.assumptions)
-    s.add(z3.Not(ob.goal))
-    r = s.check()
+    # stage 2: z3's default configuration (MBQI on), full budget; can also produce models
+    s, r = attempt(False, timeout_ms)
     dt = time.time() - t0
     if r == z3.unsat:
         return "unsat", dt, None, "z3"
@@ -400,6 +400,11 @@ def solve(ob, timeout_ms):
         except Exception:
             m = None
         return "sat", dt, m, "z3"
+    # stage 3: E-matching only again with the long budget
+    s3, r3 = attempt(True, timeout_ms)
+    dt = time.time() - t0
+    if r3 == z3.unsat:
+        return "unsat", dt, None, "z3-ematch"
     return "unknown", dt, (s, ), "z3"
 
 
